@@ -75,6 +75,12 @@ def genContent (k seed n : Nat) : Array UInt8 :=
   | 4 =>
     let r := rndBytes seed n
     r.map (fun b => if b.toNat % 50 == 0 then b else 0)
+  | 6 =>   -- incompressible first, compressible after
+    let r := rndBytes seed n
+    Array.ofFn (n := n) (fun i => if i.val < n / 2 then r[i.val]! else (i.val % 7).toUInt8)
+  | 7 =>   -- alternating 64 KiB stretches: incompressible, compressible, …
+    let r := rndBytes seed n
+    Array.ofFn (n := n) (fun i => if i.val / 65536 % 2 = 0 then r[i.val]! else (i.val % 7).toUInt8)
   | _ =>
     let r := rndBytes seed n
     Array.ofFn (n := n) (fun i => if i.val < n / 2 then (i.val % 7).toUInt8 else r[i.val]!)
